@@ -5,6 +5,7 @@ package main
 import (
 	"fmt"
 	"go/token"
+	"go/types"
 	"strings"
 
 	"golang.org/x/tools/go/ssa"
@@ -17,6 +18,7 @@ C18-b division: a device-derived divisor must be proven non-zero by a dominating
 C18-c chain walks / steps: a loop that advances through a slice by a device-derived step must have that step proven positive.
 C18-e index: a device-derived value used as the index of a slice, array or string element (s[i], not s[a:b]) must be bounded: a dominating comparison with a value that is not itself unbounded device data (len(table), len(table)-1, a validated field), a mask/shift/narrow type that keeps it below the length of a fixed-size array, or the counter of a loop that appends to the indexed slice once per iteration before indexing it.
 C18-f a pointer that an in-package decoder returns together with an error (nil on its error paths) is dereferenced only where that error is known to be nil.
+C18-h recursion: every function of the reader scope that can call itself again (directly or through other in-package functions: symbolic links followed while opening a path, directory trees and hash trees walked downwards) carries a bound among its parameters: a counter that is compared with a limit on an edge that returns an error and is passed on changed by a constant, or a list of the ancestors on the way down that is extended at the recursive call and searched before it, or the remaining components of the caller's path. A link that points back at itself, or a directory that contains one of its ancestors, otherwise recurses until the stack overflows (which cannot be recovered).
 C18-g slice bounds: a device-derived low or high bound of a slice expression s[a:b] must be bounded (a dominating comparison with len(s) or with a value that is not unbounded device data, a min/clamp with len(s), a type whose range is below the proven minimum length of s), and a constant bound on a buffer whose length is device data needs a proven minimum length (a dominating len test, a make of proven minimum, a window s[i:i+n], a length passed alongside, a positive multiple). Seven sites whose bound is relational (listed with the reason in the evidence, keyed by function and operand roots) are trusted after reading; 33 panics of this kind found while building the rule were repaired in /repo.
 Decompression bombs and time bounds are not covered (see DESIGN.md).`)
 }
@@ -94,6 +96,8 @@ func runC18(w *World, r *Report) {
 	for _, pkg := range fsPkgs {
 		all = append(all, fsReaderScope(w, pkg)...)
 	}
+	c18BoundedRecursion(w, r, all)
+	r.Floor("C18-h", r.countRule("C18-h"), 4)
 	nloops := readLoopsProgress(w, r, "C18-d", all)
 	r.Extra["read_loops_examined"] = nloops
 	if nloops == 0 {
@@ -195,4 +199,283 @@ var c18TrustedSlices = map[string]string{
 	"(*iso9660.rockRidgeExtension).parseSymlink|slice by $b":            "2+int(b2[1]) <= len(b2) is tested on the same byte two lines above, and len(b) <= 255 (it equals the entry's length byte), so 2+size does not wrap in uint8",
 	"(*iso9660.directoryEntry).getLocationBelow|slice by":               "dirb is one whole block (Read accepts only block sizes 2048, 4096 and 8192 and replaces 0 by 2048) and the bound is a single byte (at most 255)",
 	"squashfs.parseDirectory|slice by parseDirectoryEntry()":            "pos advances by the size parseDirectoryEntry returns, which it has compared with len(b[pos:]) before returning success",
+}
+
+// c18RecursiveFns lists the functions of the reader scope that can reach themselves through static calls.
+func c18RecursiveFns(w *World, fns []*ssa.Function) []*ssa.Function {
+	inScope := map[*ssa.Function]bool{}
+	for _, f := range fns {
+		inScope[f] = true
+	}
+	succ := func(f *ssa.Function) []*ssa.Function {
+		var out []*ssa.Function
+		for _, g := range withClosures(f) {
+			for _, c := range calls(g, false, func(c ssa.CallInstruction) bool { return c.Common().StaticCallee() != nil }) {
+				if t := c.Common().StaticCallee(); inScope[t] {
+					out = append(out, t)
+				}
+			}
+		}
+		return out
+	}
+	var rec []*ssa.Function
+	for _, f := range fns {
+		seen := map[*ssa.Function]bool{}
+		st := succ(f)
+		found := false
+		for len(st) > 0 && !found {
+			g := st[len(st)-1]
+			st = st[:len(st)-1]
+			if g == f {
+				found = true
+				break
+			}
+			if seen[g] {
+				continue
+			}
+			seen[g] = true
+			st = append(st, succ(g)...)
+		}
+		if found {
+			rec = append(rec, f)
+		}
+	}
+	return rec
+}
+
+// c18BoundedRecursion (C18-h): each recursive function of the reader scope has a parameter that bounds the recursion.
+func c18BoundedRecursion(w *World, r *Report, fns []*ssa.Function) {
+	rec := c18RecursiveFns(w, fns)
+	recSet := map[*ssa.Function]bool{}
+	for _, f := range rec {
+		recSet[f] = true
+	}
+	staticCallsTo := func(f *ssa.Function, pred func(*ssa.Function) bool) []ssa.CallInstruction {
+		var out []ssa.CallInstruction
+		for _, g := range withClosures(f) {
+			out = append(out, calls(g, false, func(c ssa.CallInstruction) bool { t := c.Common().StaticCallee(); return t != nil && pred(t) })...)
+		}
+		return out
+	}
+	// cycles: f and g are in one cycle when each reaches the other through recursive functions
+	reach := func(from *ssa.Function) map[*ssa.Function]bool {
+		seen := map[*ssa.Function]bool{}
+		st := []*ssa.Function{from}
+		for len(st) > 0 {
+			g := st[len(st)-1]
+			st = st[:len(st)-1]
+			for _, c := range staticCallsTo(g, func(t *ssa.Function) bool { return recSet[t] }) {
+				t := c.Common().StaticCallee()
+				if !seen[t] {
+					seen[t] = true
+					st = append(st, t)
+				}
+			}
+		}
+		return seen
+	}
+	reaches := map[*ssa.Function]map[*ssa.Function]bool{}
+	for _, f := range rec {
+		reaches[f] = reach(f)
+	}
+	sameCycle := func(a, b *ssa.Function) bool { return a == b || (reaches[a][b] && reaches[b][a]) }
+	// counterParam: an integer parameter of f that is compared with a constant such that one edge of the comparison
+	// cannot reach a call back into the cycle (an error return or the base case)
+	counterParams := func(f *ssa.Function) []int {
+		back := staticCallsTo(f, func(t *ssa.Function) bool { return sameCycle(f, t) })
+		backBlocks := map[*ssa.BasicBlock]bool{}
+		for _, c := range back {
+			if c.Parent() == f {
+				backBlocks[c.Block()] = true
+			}
+		}
+		var out []int
+		for pi, p := range f.Params {
+			if typeBits(p.Type()) == 0 {
+				continue
+			}
+			ok := false
+			for _, b := range f.Blocks {
+				iff, isIf := lastInstr(b).(*ssa.If)
+				if !isIf {
+					continue
+				}
+				bin, isBin := iff.Cond.(*ssa.BinOp)
+				if !isBin {
+					continue
+				}
+				px, py := unspillParam(stripConv(bin.X)), unspillParam(stripConv(bin.Y))
+				_, cx := constInt(bin.X)
+				_, cy := constInt(bin.Y)
+				if !((px == ssa.Value(p) && cy) || (py == ssa.Value(p) && cx)) {
+					continue
+				}
+				for idx := range b.Succs {
+					// does this edge reach a back call?
+					seen := map[*ssa.BasicBlock]bool{b: true} // a path that comes back to the comparison is decided there again
+					st := []*ssa.BasicBlock{b.Succs[idx]}
+					hits := false
+					for len(st) > 0 && !hits {
+						x := st[len(st)-1]
+						st = st[:len(st)-1]
+						if seen[x] {
+							continue
+						}
+						seen[x] = true
+						if backBlocks[x] {
+							hits = true
+						}
+						st = append(st, x.Succs...)
+					}
+					if !hits {
+						ok = true
+					}
+				}
+			}
+			if ok {
+				out = append(out, pi)
+			}
+		}
+		return out
+	}
+	for _, f := range rec {
+		name := fnName(f)
+		back := staticCallsTo(f, func(t *ssa.Function) bool { return sameCycle(f, t) })
+		bounded := ""
+		// (a) a counter threaded through the cycle: every member passes one of its integer parameters (unchanged or
+		// changed by a constant) to every member it calls, some member changes it by a non-zero constant, and some
+		// member compares it with a constant on an edge that leads away from the cycle (an error or the base case)
+		intArgFrom := func(g *ssa.Function, c ssa.CallInstruction) (threaded map[int]bool, stepped bool) {
+			threaded = map[int]bool{}
+			for _, a := range c.Common().Args {
+				v := stripConv(a)
+				step := false
+				if bo, isB := v.(*ssa.BinOp); isB && (bo.Op == token.ADD || bo.Op == token.SUB) {
+					if k, isC := constInt(bo.Y); isC {
+						v = stripConv(bo.X)
+						step = k != 0
+					}
+				}
+				v = unspillParam(v)
+				for qi, q := range g.Params {
+					if ssa.Value(q) == v && typeBits(q.Type()) > 0 {
+						threaded[qi] = true
+						if step {
+							stepped = true
+						}
+					}
+				}
+			}
+			return
+		}
+		var members []*ssa.Function
+		for _, g := range rec {
+			if sameCycle(f, g) {
+				members = append(members, g)
+			}
+		}
+		allThread, anyStep, anyLimit := true, false, false
+		for _, g := range members {
+			gb := staticCallsTo(g, func(t *ssa.Function) bool { return sameCycle(g, t) })
+			common := map[int]bool{}
+			first := true
+			for _, c := range gb {
+				th, st := intArgFrom(g, c)
+				if st {
+					anyStep = true
+				}
+				if first {
+					common, first = th, false
+				} else {
+					for k := range common {
+						if !th[k] {
+							delete(common, k)
+						}
+					}
+				}
+			}
+			if len(gb) == 0 || len(common) == 0 {
+				allThread = false
+			}
+			for _, k := range counterParams(g) {
+				if common[k] {
+					anyLimit = true
+				}
+			}
+		}
+		if allThread && anyStep && anyLimit {
+			bounded = "counter threaded through " + fmt.Sprint(len(members)) + " function(s)"
+		}
+		// (b) a list of ancestors: extended with append at the back call and searched in the body
+		if bounded == "" {
+			for pi, p := range f.Params {
+				if _, isSlice := p.Type().Underlying().(*types.Slice); !isSlice || isByteSlice(p.Type()) {
+					continue
+				}
+				extended, searched := false, false
+				for _, c := range back {
+					if c.Common().StaticCallee() != f || pi >= len(c.Common().Args) {
+						continue
+					}
+					// the argument is append(p, ...), possibly through a phi or a local cell
+					seenV := map[ssa.Value]bool{}
+					var walk func(v ssa.Value, d int)
+					walk = func(v ssa.Value, d int) {
+						v = stripConv(v)
+						if v == nil || seenV[v] || d > 6 {
+							return
+						}
+						seenV[v] = true
+						switch x := v.(type) {
+						case *ssa.Call:
+							if bi, ok := x.Call.Value.(*ssa.Builtin); ok && bi.Name() == "append" && len(x.Call.Args) > 0 {
+								if a0 := unspillParam(stripConv(x.Call.Args[0])); a0 == ssa.Value(p) {
+									extended = true
+								} else {
+									walk(x.Call.Args[0], d+1)
+								}
+							}
+						case *ssa.Phi:
+							for _, e := range x.Edges {
+								walk(e, d+1)
+							}
+						case *ssa.UnOp:
+							if x.Op == token.MUL {
+								for _, st := range cellStores(x.X) {
+									walk(st.Val, d+1)
+								}
+							}
+						}
+					}
+					walk(c.Common().Args[pi], 0)
+				}
+				allInstrs(f, func(ins ssa.Instruction) {
+					var x ssa.Value
+					switch y := ins.(type) {
+					case *ssa.Range:
+						x = y.X
+					case *ssa.IndexAddr:
+						x = y.X
+					case *ssa.Index:
+						x = y.X
+					default:
+						return
+					}
+					for _, rt := range w.prov(x, provOpts{}).Roots {
+						if rt.Kind == RParam && rt.Param == p {
+							searched = true
+						}
+					}
+				})
+				if extended && searched {
+					bounded = "ancestor list " + p.Name()
+				}
+			}
+		}
+		r.Check(bounded != "", "C18-h", name, "recursion is bounded", w.relFile(f.Pos()), bounded,
+			"this function can call itself again (directly or through the functions it calls) and none of its parameters bounds the recursion (no counter that is compared with a limit and passed on changed by a constant, no list of ancestors extended and searched): a symbolic link that leads back to itself, or a directory that contains one of its ancestors, recurses until the goroutine stack overflows, which kills the process")
+	}
+	if len(rec) == 0 {
+		r.Ok("C18-h", "filesystem readers", "no recursive function in the reader scope", "filesystem", "")
+	}
 }
